@@ -30,13 +30,16 @@ def build_case(u):
     # history: the tested call may be preceded by an ordinary exchange that leaves the session with large boots/time
     return {"cfg": cfg, "op": op, "driver": driver, "kind": kind, "names": names, "vals": vals, "warmup": u.below(3) == 0,
             # how many OIDs get_many() asks for is independent of what the reply carries (1: the degenerate single-OID call)
-            "nask": (1, 2, 2, 3, 1, 5, 2, 0)[u.below(8)]}
+            "nask": (1, 2, 2, 3, 1, 5, 2, 0)[u.below(8)],
+            # request-id carried by a Report: the request's, or what an agent sends when it could not read it
+            # (RFC 3412 7.1 3c: 2^31-1; some agents: 0)
+            "report_rid": (None, None, 2147483647, 0, 1, None, 2147483647, 0)[u.below(8)]}
 
 
 def describe(c):
     return {"cfg": c["cfg"].describe(), "_cfg": gen.cfg_to_json(c["cfg"]), "op": c["op"], "driver": c["driver"], "kind": c["kind"],
             "_names": [list(n) for n in c["names"]], "_tlvs": [v.tlv for v in c["vals"]], "_kinds": [v.kind for v in c["vals"]],
-            "_pys": [({"float": repr(v.py)} if isinstance(v.py, float) else v.py) for v in c["vals"]], "warmup": c.get("warmup", False), "nask": c.get("nask", 2)}
+            "_pys": [({"float": repr(v.py)} if isinstance(v.py, float) else v.py) for v in c["vals"]], "warmup": c.get("warmup", False), "nask": c.get("nask", 2), "report_rid": c.get("report_rid")}
 
 
 def expected(G, c):
@@ -80,7 +83,10 @@ def execute(G, c):
         if c["kind"] == "silent":
             return []
         if c["kind"] == "report":
-            return [ag.build_report(cfg, req, req["engine_id"], 7, 1234)]
+            rq = dict(req)
+            if c.get("report_rid") is not None:
+                rq["request_id"] = c["report_rid"]
+            return [ag.build_report(cfg, rq, req["engine_id"], 7, 1234)]
         return [ag.build_reply(cfg, req, vbs)]
 
     ask = ["1.3.6.1.2.1.1.%d.0" % (i + 1) for i in range(c.get("nask", 2))]
@@ -141,7 +147,7 @@ def replay(rep, case, body=None):
     vals = [gen.Val(k, (float(p["float"]) if isinstance(p, dict) and "float" in p else p), t)
             for k, p, t in zip(case["_kinds"], case["_pys"], case["_tlvs"])]
     c = {"cfg": gen.cfg_from_json(case["_cfg"]), "op": case["op"], "driver": case["driver"], "kind": case["kind"],
-         "names": [tuple(n) for n in case["_names"]], "vals": vals, "warmup": case.get("warmup", False), "nask": case.get("nask", 2)}
+         "names": [tuple(n) for n in case["_names"]], "vals": vals, "warmup": case.get("warmup", False), "nask": case.get("nask", 2), "report_rid": case.get("report_rid")}
     try:
         execute(G, c)
     except core.Failure as f:
